@@ -397,7 +397,8 @@ def project2(beh, which):
     return out
 
 
-def run_pair(bindir, beh, *, root, cap, k, types_a, types_b, ctxs, shards, sh_a, sh_b, names_a, names_b, keep=False):
+def run_pair(bindir, beh, *, root, cap, k, types_a, types_b, ctxs, shards, sh_a, sh_b, names_a, names_b, keep=False,
+             with_replay=False):
     """Replay a Storage2Gen behaviour on two shards of one engine. Returns {"A": recs, "B": recs}, problems."""
     flat = []
     for c in beh:
@@ -409,7 +410,8 @@ def run_pair(bindir, beh, *, root, cap, k, types_a, types_b, ctxs, shards, sh_a,
             d["shard"] = sh_a if c["sh"] == "A" else sh_b
         flat.append(d)
     back = {v: kk for kk, v in list(names_a.items()) + list(names_b.items())}
-    recs, problems = run_behaviour(bindir, flat, root=root, cap=cap, k=k, types=list(types_a) + list(types_b), ctxs=[],
+    recs, problems = run_behaviour(bindir, flat, root=root, cap=cap, k=k, types=list(types_a) + list(types_b),
+                                   ctxs=(sorted(back) if with_replay else []),
                                    shards=shards, shard=sh_a, ctx_names=dict((v, v) for v in back), prepared=True, keep=keep)
     out = {}
     for which, sh in (("A", sh_a), ("B", sh_b)):
@@ -423,12 +425,17 @@ def run_pair(bindir, beh, *, root, cap, k, types_a, types_b, ctxs, shards, sh_a,
                              for t, rows in real["q"].items()}
                 if real.get("fs_all"):
                     real["fs"] = real["fs_all"][sh]
+                if with_replay:
+                    nm = names_a if which == "A" else names_b
+                    tys = types_a if which == "A" else types_b
+                    # this shard's view: REPLAY <its type> FOR <its context>, keyed by the model's context names
+                    real["replay"] = {f"{t}|{c}": real["replay"].get(f"{t}|{nm[c]}") for t in tys for c in ctxs}
             rs.append({"i": rec["i"], "cmd": pb[rec["i"]], "real": real})
         out[which] = (pb, rs)
     return out, problems
 
 
-def campaign2(chk, tag, plans, ctxs, bindir, judge, rnd, types_a=("a", "b"), types_b=("p", "q")):
+def campaign2(chk, tag, plans, ctxs, bindir, judge, rnd, types_a=("a", "b"), types_b=("p", "q"), with_replay=False, keep_if=None):
     """Two ACTIVE shards: generate (Storage2Gen) + select + replay on two shards of a 3-shard engine + judge each shard's view
     with `judge(chk, projected_behaviour, recs, problems, cfgdesc, stats, types=...)`."""
     ta, tb = list(types_a), list(types_b)
@@ -446,7 +453,7 @@ def campaign2(chk, tag, plans, ctxs, bindir, judge, rnd, types_a=("a", "b"), typ
         behs, _r = behaviours2(cfgp, n=pl["n_sim"], gen_len=pl["gen_len"], seed=core.seed() + 31 * pl["cap"])
         rnd.shuffle(behs)
         # keep behaviours in which both shards store
-        behs = [b for b in behs if {c["sh"] for c in b if c["cmd"] == "store"} >= {"A", "B"}]
+        behs = [b for b in behs if {c["sh"] for c in b if c["cmd"] == "store"} >= {"A", "B"} and (keep_if is None or keep_if(b))]
         feats = [features2(b) for b in behs]
         chosen, covered = [], set()
         rest = list(range(len(behs)))
@@ -462,7 +469,7 @@ def campaign2(chk, tag, plans, ctxs, bindir, judge, rnd, types_a=("a", "b"), typ
             beh = behs[bi]
             res, problems = run_pair(bindir, beh, root=core.WORK / tag.lower() / f"{pl['name']}-{bi}", cap=pl["cap"], k=pl["k"],
                                      types_a=ta, types_b=tb, ctxs=ctxs, shards=3, sh_a=sh_a, sh_b=sh_b,
-                                     names_a=names_a, names_b=names_b)
+                                     names_a=names_a, names_b=names_b, with_replay=with_replay)
             stats["behaviours"] += 1
             stats["lifetimes"] += 1 + sum(1 for c in beh if c["cmd"] in ("crash", "restart") or c.get("crash", "none") != "none")
             if any(c.get("crash", "none") != "none" for c in beh):
